@@ -25,7 +25,7 @@ from obligations.shape_tables import (model_attrs, alf_run, ALF, M, Tmpl, Clu, C
 from obligations.C11 import MI
 
 MG = 'phylib/io/merge.py'
-FLOOR = 28
+FLOOR = 22
 AKF = {'amp': 1, 'ka': 1, 'F': 1}
 EXPLANATION = ('shape engine over the EphysAlfCreator methods with the model methods inline (dimension with the unit factor, index spaces of '
                'loop indices and tables, provenance of the channel order); sym walk of the per-probe loops of the exporter and of the merger '
@@ -185,69 +185,109 @@ def run(ctx):
         else:
             ctx.undecided('C14.U2', mt, '%s not typed (%s)' % (nm, a))
     # channel ordering (structure of the two loops)
-    loops = [l for l in mt.nodes(ast.For)]
+    closure = repo.transparent_closure(mt)
+    loops = [(f_, l) for f_ in closure for l in f_.nodes(ast.For)]
     nl = 0
-    for lp in loops:
+    shared = 0
+    for home, lp in loops:
         body = ast.unparse(lp)
         t = unparse(lp.target)
         it = unparse(lp.iter).replace(' ', '')
         which = 'templates' if 'n_templates' in it else ('clusters' if 'n_clusters' in it else None)
+        # per-item helpers called from the loop body (extracted from it) belong to the loop: their statements are searched as well
+        called = []
+        for c_ in [n for n in ast.walk(lp) if isinstance(n, ast.Call)]:
+            for g_ in closure:
+                if g_ is not home and g_ is not mt and (q.method_name(c_) == g_.name or dotted(c_.func) == g_.name) and g_ not in called:
+                    called.append(g_)
+        has_sort = lambda root: any(isinstance(n, ast.Call) and (dotted(n.func) or '').endswith('argsort') for n in ast.walk(root))
+        if which is None and home is not mt and (has_sort(lp) or any(has_sort(g_.node) for g_ in called)):
+            # one loop in a helper extracted from the two export loops: it serves both tables when the helper is called for both
+            callers = [c for c in mt.calls() if q.method_name(c) == home.name or dotted(c.func) == home.name]
+            which = 'templates and clusters (shared helper %s)' % home.name
+            shared = len(callers)
         if which is None:
             continue
         nl += 1
-        PL = Pat(mt)
-        body_stmts = [x for x in ast.walk(lp) if isinstance(x, ast.stmt)]
-        dist = PL.find('V_dist = np.sum(np.abs(self.model.channel_positions - self.model.channel_positions[E_peak]), axis=1)', body_stmts, stmt=True) or \
-            PL.find('V_dist = np.abs(self.model.channel_positions - self.model.channel_positions[E_peak]).sum(axis=1)', body_stmts, stmt=True)
-        dist_any = dist or PL.find('V_dist = np.sum(ANY, axis=1)', body_stmts, stmt=True) or PL.find('V_dist = np.sum(ANY, axis=0)', body_stmts, stmt=True) or \
-            PL.find('V_dist = np.sum(ANY)', body_stmts, stmt=True)
+        regions = [(home, [x for x in ast.walk(lp) if isinstance(x, ast.stmt)])] + [(g_, [x for x in ast.walk(g_.node) if isinstance(x, ast.stmt)]) for g_ in called]
+
+        class _Multi:
+            """The same pattern tried in the loop body and in the helpers it calls, first without and then with expansion of local aliases."""
+            def __init__(self):
+                self.pats = [(Pat(f_), stmts_) for f_, stmts_ in regions]
+
+            def find(self, pattern, _ignored=None, stmt=True, expand=True):
+                for ex_ in (False, True):
+                    for P_, stmts_ in self.pats:
+                        r_ = P_.find(pattern, stmts_, stmt=stmt, expand=ex_)
+                        if r_ is not None:
+                            return r_
+                return None
+
+            def name(self, var):
+                for P_, _s in self.pats:
+                    if P_.name(var):
+                        return P_.name(var)
+                return None
+        PL = _Multi()
+        body_stmts = [x for _f, stmts_ in regions for x in stmts_]
+        sort_roots = [lp] + [g_.node for g_ in called]
+        dist = PL.find('V_dist = np.sum(np.abs(self.model.channel_positions - self.model.channel_positions[E_peak]), axis=1)', body_stmts, stmt=True, expand=True) or \
+            PL.find('V_dist = np.abs(self.model.channel_positions - self.model.channel_positions[E_peak]).sum(axis=1)', body_stmts, stmt=True, expand=True)
+        dist_any = dist or PL.find('V_dist = np.sum(ANY, axis=1)', body_stmts, stmt=True, expand=True) or PL.find('V_dist = np.sum(ANY, axis=0)', body_stmts, stmt=True, expand=True) or \
+            PL.find('V_dist = np.sum(ANY)', body_stmts, stmt=True, expand=True)
         if dist is not None:
-            ctx.holds('C14.U1', mt, '%s: distance = L1 distance between channel positions and the peak-channel position' % which, dist)
+            ctx.holds('C14.U1', home, '%s: distance = L1 distance between channel positions and the peak-channel position' % which, dist)
         elif dist_any is not None and 'channel_positions' in unparse(dist_any.value):
-            ctx.violated('C14.U1', mt, dist_any, '%s: the distance is `%s`, not sum(|positions - position of the peak channel|) over the coordinates' % (which, unparse(dist_any.value)[:100]))
+            ctx.violated('C14.U1', home, dist_any, '%s: the distance is `%s`, not sum(|positions - position of the peak channel|) over the coordinates' % (which, unparse(dist_any.value)[:100]))
         else:
-            ctx.undecided('C14.U1', mt, '%s: computation of the channel distance not recognised' % which)
+            ctx.undecided('C14.U1', home, '%s: computation of the channel distance not recognised' % which)
         dname = PL.name('V_dist')
-        srt = [n for n in ast.walk(lp) if isinstance(n, ast.Subscript) and isinstance(n.value, ast.Call) and (dotted(n.value.func) or '').endswith('argsort')]
+        srt = [n for r_ in sort_roots for n in ast.walk(r_) if isinstance(n, ast.Subscript) and isinstance(n.value, ast.Call) and (dotted(n.value.func) or '').endswith('argsort')]
         if not srt or dname is None:
-            ctx.undecided('C14.U1', mt, '%s: ordering of the channels by distance not recognised' % which)
+            ctx.undecided('C14.U1', home, '%s: ordering of the channels by distance not recognised' % which)
         else:
             a0 = srt[0].value.args[0] if srt[0].value.args else None
             asc = isinstance(srt[0].slice, ast.Slice) and srt[0].slice.lower is None and srt[0].slice.upper is not None and srt[0].slice.step is None and \
                 isinstance(a0, ast.Name) and a0.id == dname
             desc = isinstance(a0, ast.UnaryOp) or (isinstance(srt[0].slice, ast.Slice) and (srt[0].slice.step is not None or srt[0].slice.lower is not None))
             if asc:
-                ctx.holds('C14.U1', mt, '%s: listed channels = first n of the ascending distance order (peak channel first)' % which, srt[0])
+                ctx.holds('C14.U1', home, '%s: listed channels = first n of the ascending distance order (peak channel first)' % which, srt[0])
             elif desc:
-                ctx.violated('C14.U1', mt, srt[0], '%s: listed channels are `%s`, not the first n of an ascending argsort of the distance' % (which, unparse(srt[0])))
+                ctx.violated('C14.U1', home, srt[0], '%s: listed channels are `%s`, not the first n of an ascending argsort of the distance' % (which, unparse(srt[0])))
             else:
-                ctx.undecided('C14.U1', mt, '%s: channel ordering `%s` not recognised' % (which, unparse(srt[0])), srt[0])
-        pen = PL.find('V_dist[self.model.channel_probes != E_probe] += np.inf', body_stmts, stmt=True) or PL.find("V_dist[self.model.channel_probes != E_probe] = np.inf", body_stmts, stmt=True) or \
-            PL.find("V_dist[self.model.channel_probes != E_probe] += float('inf')", body_stmts, stmt=True)
-        pen_bad = PL.find('V_dist[self.model.channel_probes == E_probe] += np.inf', body_stmts, stmt=True) if pen is None else None
+                ctx.undecided('C14.U1', home, '%s: channel ordering `%s` not recognised' % (which, unparse(srt[0])), srt[0])
+        pen = PL.find('V_dist[self.model.channel_probes != E_probe] += np.inf', body_stmts, stmt=True, expand=True) or PL.find("V_dist[self.model.channel_probes != E_probe] = np.inf", body_stmts, stmt=True, expand=True) or \
+            PL.find("V_dist[self.model.channel_probes != E_probe] += float('inf')", body_stmts, stmt=True, expand=True)
+        pen_bad = PL.find('V_dist[self.model.channel_probes == E_probe] += np.inf', body_stmts, stmt=True, expand=True) if pen is None else None
         has_inf = any('inf' in unparse(x) for x in body_stmts if isinstance(x, (ast.Assign, ast.AugAssign)))
         if pen is not None:
-            ctx.holds('C14.U1', mt, '%s: channels of other probes are pushed to infinite distance' % which, pen)
+            ctx.holds('C14.U1', home, '%s: channels of other probes are pushed to infinite distance' % which, pen)
         elif pen_bad is not None or (dname is not None and not has_inf):
-            ctx.violated('C14.U1', mt, pen_bad or lp, '%s: channels of other probes are not excluded from the neighbourhood' % which)
+            ctx.violated('C14.U1', home, pen_bad or lp, '%s: channels of other probes are not excluded from the neighbourhood' % which)
         else:
-            ctx.undecided('C14.U1', mt, '%s: exclusion of the channels of other probes not recognised' % which)
+            ctx.undecided('C14.U1', home, '%s: exclusion of the channels of other probes not recognised' % which)
         # columns: row t of the waveforms is taken on the channels of row t of waveformsChannels
-        inds = PL.find('V_inds[%s, :] = ANY' % t, body_stmts, stmt=True) or PL.find('V_inds[%s] = ANY' % t, body_stmts, stmt=True)
+        inds = PL.find('V_inds[%s, :] = ANY' % t, body_stmts, stmt=True, expand=True) or PL.find('V_inds[%s] = ANY' % t, body_stmts, stmt=True, expand=True)
         cols = None
         if inds is not None:
             for pat_ in ('V_out[%s, ...] = E_src[%s, :][:, V_inds[%s, :]]' % (t, t, t), 'V_out[%s] = E_src[%s][:, V_inds[%s]]' % (t, t, t), 'V_out[%s, ...] = E_src[%s][:, V_inds[%s, :]]' % (t, t, t),
                          'V_out[%s, :, :] = E_src[%s, :][:, V_inds[%s, :]]' % (t, t, t), 'V_out[%s, ...] = E_src[%s, :, V_inds[%s, :]]' % (t, t, t)):
-                cols = cols or PL.find(pat_, body_stmts, stmt=True)
+                cols = cols or PL.find(pat_, body_stmts, stmt=True, expand=True)
         col_any = [x for x in body_stmts if isinstance(x, ast.Assign) and isinstance(x.targets[0], ast.Subscript) and x is not inds and not isinstance(x.value, ast.Constant) and
                    PL.name('V_inds') and PL.name('V_inds') in q.names_in(x.value)]
         if cols is not None:
-            ctx.holds('C14.U1', mt, '%s: waveform columns are those of the same row of waveformsChannels' % which, cols)
+            ctx.holds('C14.U1', home, '%s: waveform columns are those of the same row of waveformsChannels' % which, cols)
         elif col_any:
-            ctx.violated('C14.U1', mt, col_any[0], '%s: waveform columns are `%s`, not the columns listed in the matching waveformsChannels row' % (which, unparse(col_any[0].value)[:90]))
+            ctx.violated('C14.U1', home, col_any[0], '%s: waveform columns are `%s`, not the columns listed in the matching waveformsChannels row' % (which, unparse(col_any[0].value)[:90]))
         else:
-            ctx.undecided('C14.U1', mt, '%s: selection of the waveform columns not recognised' % which)
-    ctx.check(nl == 2, 'C14.U1', mt, 'loops', 'templates and clusters are both exported', 'the template / cluster export loops were not both found')
+            ctx.undecided('C14.U1', home, '%s: selection of the waveform columns not recognised' % which)
+    if nl == 2 or (nl == 1 and shared >= 2):
+        ctx.holds('C14.U1', mt, 'templates and clusters are both exported', 'loops')
+    elif nl == 0 and not any(isinstance(n, ast.Call) and (dotted(n.func) or '').endswith('argsort') for f_ in closure for n in ast.walk(f_.node)):
+        ctx.violated('C14.U1', mt, 'loops', 'no loop selects the nearest channels of the exported waveforms (templates / clusters)')
+    else:
+        ctx.undecided('C14.U1', mt, 'the template / cluster export loops were not both recognised (%d found)' % nl)
     amp_calls = [c for c in mt.calls() if q.method_name(c) == 'get_amplitudes_true']
     uses = sorted(const_value(q.kwarg(c, 'use')) or 'templates' for c in amp_calls)
     okf = uses == ['clusters', 'templates'] and all(c.args and unparse(c.args[0]) == 'self.ampfactor' for c in amp_calls)
